@@ -214,11 +214,17 @@ def checkMsgs : List Msg → Bool
   | [_] => true
   | a :: b :: r => sameType a.ty b.ty && checkMsgs (b :: r)
 
-/-- `getProposalMsgType` -/
+/-- `sdk.MsgTypeURL` applied to a `*codectypes.Any` wrapper -/
+def anyUrl : Ty := "/google.protobuf.Any".toList
+
+/-- `getProposalMsgType`: the expression read from the source, for the first message -/
 def propType (msgs : List Msg) : Ty :=
   match msgs with
   | [] => []
-  | m :: _ => if msgTypeIsFirstMessage then m.ty else []
+  | m :: _ => if propTypeIsMessageUrl then m.ty else anyUrl
+
+/-- the url that `GetMinDepositAmountFromProposalMsgs` compares with the EGF url, for one message -/
+def egfSeenUrl (m : Msg) : Ty := if egfUrlIsMessageUrl then m.ty else anyUrl
 
 def isEgf (t : Ty) : Bool :=
   if egfTypeCmp == "strings.EqualFold" then lowerAscii t == lowerAscii egfUrl.toList else t == egfUrl.toList
@@ -227,7 +233,7 @@ def isEgf (t : Ty) : Bool :=
 def egfRequest : List Msg → Option (Nat × Nat)
   | [] => some (0, 0)
   | m :: r =>
-    if isEgf m.ty then
+    if isEgf (egfSeenUrl m) then
       match egfRequest r with
       | some (a, b) =>
         match m.act with
